@@ -26,10 +26,10 @@ ElemsOf(desc, shape, coords, d, n, cur) ==
       [] desc[d] = "B" -> Ones(SubSeq(coords[d], cur.c[d] + 1, cur.c[d] + shape[d]))
 AdvC(desc, shape, d, n, cur) == [cur EXCEPT !.c[d] = @ + (CASE desc[d] = "U" -> 0 [] desc[d] = "C" -> n [] desc[d] = "B" -> shape[d])]
 
-RECURSIVE DecFiber(_, _, _, _, _, _, _, _)
-RECURSIVE DecChildren(_, _, _, _, _, _, _, _, _, _, _)
+RECURSIVE DecFiber(_, _, _, _, _, _, _, _, _)
+RECURSIVE DecChildren(_, _, _, _, _, _, _, _, _, _, _, _)
 \* returns [content |-> set of <<point, value>>, cur |-> cursors, ok |-> arrays long enough]
-DecFiber(desc, shape, coords, pays, d, n, prefix, cur) ==
+DecFiber(desc, shape, coords, pays, d, n, prefix, cur, dflt) ==
     LET need == CASE desc[d] = "U" -> 0 [] desc[d] = "C" -> n [] desc[d] = "B" -> shape[d]
         okc  == cur.c[d] + need <= Len(coords[d])
     IN IF ~okc THEN [content |-> {}, cur |-> cur, ok |-> FALSE]
@@ -39,25 +39,25 @@ DecFiber(desc, shape, coords, pays, d, n, prefix, cur) ==
            m    == Len(es)
        IN IF d = Len(desc)
           THEN IF cur1.p[d] + m > Len(pays[d]) THEN [content |-> {}, cur |-> cur1, ok |-> FALSE]
-               ELSE [content |-> {x \in {<<Append(prefix, es[k]), pays[d][cur1.p[d] + k]>> : k \in 1..m} : x[2] # 0},
+               ELSE [content |-> {x \in {<<Append(prefix, es[k]), pays[d][cur1.p[d] + k]>> : k \in 1..m} : x[2] # dflt},        \* an implicit position holding the tensor's default is an absent element
                      cur |-> [cur1 EXCEPT !.p[d] = @ + m], ok |-> TRUE]
           ELSE IF Explicit(desc[d + 1])
                THEN IF cur1.p[d] + m > Len(pays[d]) THEN [content |-> {}, cur |-> cur1, ok |-> FALSE]
                     ELSE LET occ == SubSeq(pays[d], cur1.p[d] + 1, cur1.p[d] + m)
                              cur2 == [cur1 EXCEPT !.p[d] = @ + m]
-                         IN DecChildren(desc, shape, coords, pays, d, es, occ, 1, prefix, cur2, {})
-               ELSE DecChildren(desc, shape, coords, pays, d, es, <<>>, 1, prefix, cur1, {})
-DecChildren(desc, shape, coords, pays, d, es, occ, k, prefix, cur, acc) ==
+                         IN DecChildren(desc, shape, coords, pays, d, es, occ, 1, prefix, cur2, {}, dflt)
+               ELSE DecChildren(desc, shape, coords, pays, d, es, <<>>, 1, prefix, cur1, {}, dflt)
+DecChildren(desc, shape, coords, pays, d, es, occ, k, prefix, cur, acc, dflt) ==
     IF k > Len(es) THEN [content |-> acc, cur |-> cur, ok |-> TRUE]
     ELSE LET n == IF occ = <<>> THEN 0 ELSE occ[k] - (IF k = 1 THEN 0 ELSE occ[k - 1])
-             r == DecFiber(desc, shape, coords, pays, d + 1, n, Append(prefix, es[k]), cur)
+             r == DecFiber(desc, shape, coords, pays, d + 1, n, Append(prefix, es[k]), cur, dflt)
          IN IF ~r.ok \/ n < 0 THEN [content |-> acc, cur |-> cur, ok |-> FALSE]
-            ELSE DecChildren(desc, shape, coords, pays, d, es, occ, k + 1, prefix, r.cur, acc \cup r.content)
+            ELSE DecChildren(desc, shape, coords, pays, d, es, occ, k + 1, prefix, r.cur, acc \cup r.content, dflt)
 
-Decode(desc, shape, coords, pays, rootp) ==
+Decode(desc, shape, coords, pays, rootp, dflt) ==
     LET n0 == IF Explicit(desc[1]) THEN (IF Len(rootp) >= 1 THEN rootp[1] ELSE -1) ELSE 0
         z  == [c |-> [k \in 1..Len(desc) |-> 0], p |-> [k \in 1..Len(desc) |-> 0]]
-    IN IF n0 < 0 THEN [content |-> {}, cur |-> z, ok |-> FALSE] ELSE DecFiber(desc, shape, coords, pays, 1, n0, <<>>, z)
+    IN IF n0 < 0 THEN [content |-> {}, cur |-> z, ok |-> FALSE] ELSE DecFiber(desc, shape, coords, pays, 1, n0, <<>>, z, dflt)
 
 (***************************************************************************)
 (* The encoder the layout documents (used at design level: Decode o Encode *)
@@ -73,7 +73,7 @@ EncFiber(desc, shape, p, d, dflt, arr) ==
                 [] desc[d] = "B" -> [k \in 1..shape[d] |-> IF Has(pe, k - 1) THEN 1 ELSE 0]
         arr1 == [arr EXCEPT !.coords[d] = @ \o ca]
     IN IF d = Len(desc)
-       THEN [arr |-> [arr1 EXCEPT !.pays[d] = @ \o [k \in 1..Len(es) |-> IF Has(p.e, es[k]) THEN Get(p.e, es[k]).v ELSE 0]], n |-> Len(es)]
+       THEN [arr |-> [arr1 EXCEPT !.pays[d] = @ \o [k \in 1..Len(es) |-> IF Has(p.e, es[k]) THEN Get(p.e, es[k]).v ELSE dflt]], n |-> Len(es)]
        ELSE LET r == EncKids(desc, shape, p, d, dflt, es, 1, [arr |-> arr1, occ |-> <<>>, tot |-> 0])
             IN [arr |-> IF Explicit(desc[d + 1]) THEN [r.arr EXCEPT !.pays[d] = SubSeq(@, 1, Len(arr1.pays[d])) \o r.occ \o SubSeq(@, Len(arr1.pays[d]) + 1, Len(@))] ELSE r.arr,
                 n |-> Len(es)]
